@@ -147,7 +147,7 @@ def run_rules(ctx, chk):
                 chk.ob('C11.P5', 'unclassified-atomic-store-in:%s' % path.split('::')[-1], False, site,
                        '%s performs an atomic store to an unrecognised target' % path)
     chk.analysed['call_sites'] += n_sites
-    chk.floor('C11.P5', 'atomic store sites inspected', n_sites, 3)
+    chk.floor('C11.P5', 'atomic store sites inspected', n_sites, 2)
     # ---- P6: "never returns to 0 ... when an update starts from an odd value left behind by a crashed writer":
     # a restarted writer must take such a segment over in place, i.e. the usability probe is exactly the
     # client open routine and that routine does not look at the generation's parity (C04.T1/T5/T8)
